@@ -269,6 +269,9 @@ ASSUMED = [
     'witness views of QMultiHash<QString,QByteArray>, QList<QByteArray>, QList<QString>, QList<QXmppTrustMessageKeyOwner>, QHash<bool,QMultiHash> (units/C18/model.h): insert / append / values / uniqueKeys / value / isEmpty act on the witness (owner, key, sender key) as the Qt containers do',
     'NAMED_T / NAMED_D ("the message names key g_k of owner g_o as trusted / distrusted") are defined by quantification over the abstract message; their introduction is instantiated where an element is read, their elimination names Skolem indices (definitional, units/C18/model.h)',
     'ASSUMED contracts of QXmppTrustManager::trustLevel / setTrustLevel (both overloads) / securityPolicy and of QXmppAtmTrustStorage::addKeysForPostponedTrustDecisions / removeKeysForPostponedTrustDecisions (by sender keys; by key ids) / keysForPostponedTrustDecisions over the abstract view trust[(encryption, owner, key)], postponed[(encryption, sender key, owner, key)] (units/C18/storage.h); QXmppTrustMemoryStorage / QXmppAtmTrustMemoryStorage are not verified against them',
+    'the same operations called on the storage itself (QXmppTrustStorage::setTrustLevel / trustLevel) have the same effect; the answer of setTrustLevel is the set of keys whose level was really modified, possibly empty (STL_ANSWER); keysForPostponedTrustDecisions with an EMPTY sender-key list answers the decisions of ALL sender keys (documented in QXmppAtmTrustStorage.cpp, implemented so by QXmppAtmTrustMemoryStorage)',
+    'trustLevelsChanged is a synchronous notification with no effect on the manager or the storage',
+    'a continuation of authenticate / makePostponedTrustDecisions runs in the round whose call record (G_auth / G_mp) was written when the function was entered (no other round of the same function in between)',
     'trustStorage() returns the ATM trust storage the manager was constructed with (non-null)',
     'task.then(context, lambda) stores a copy of the closure and runs nothing at that point; the continuation runs later, at most once, with the result of that task, in the state the operation left (QXmppTask / QXmppPromise: property C13); promise.finish() / promise.task() / makeReadyTask() are ids and an event log',
     'the lemma harnesses assume: well-formed witness views of their nondeterministic inputs (KS_WF / KL_WF), the abstract postponed entry is one of none / authenticate / distrust (PP_OK), the definitional binding of NAMED_T / NAMED_D to the element of the message, and for makePostponedTrustDecisions the exclusion of the input class of finding C18-F1',
